@@ -37,6 +37,18 @@ def run(pid, tier, seed, replay):
         vlib.run([drv, "replay", replay, out], timeout=600)
     else:
         vlib.run([drv, "gen", mode, str(nq if tier == "quick" else nt), str(seed), out], timeout=6000)
+        if pid == "C14":
+            # ... and histories in which machines come and go between the messages (the crew's membership is not fixed)
+            out_h = os.path.join(wd, "hist_for_c14.ndjson")
+            vlib.run([drv, "gen", "hist", "250" if tier == "quick" else "4000", str(seed + 9), out_h], timeout=6000)
+            with open(out, "a") as f:
+                k = nq if tier == "quick" else nt
+                for line in open(out_h):
+                    k += 1
+                    c = json.loads(line)
+                    c["id"] = k
+                    c["restarts"] = []
+                    f.write(json.dumps(c) + "\n")
     mc_states = mc_gen = 0
     if pid == "C15" and not replay:
         # the implementation-shaped model of the change cache: all histories of <= 4 operations over two machine ids,
@@ -187,6 +199,16 @@ def run(pid, tier, seed, replay):
         log("  Msimple.tla: %d states, scenario invariants hold (pre-order printing, the latch holds the last set in printing order); %d runs of the real cmd/msimple binary judged, %d differ from the composed model" % (r["distinct"], t4["lines"], len(bad4)))
         extra_stats.update({"msimple." + k: v for k, v in stats4.items()})
         extra_stats["msimple.differing_runs"] = len(bad4)
+        # the mcrew host as one state machine (asynchronous re-processing of every emitted message, also when the store fails
+        # for some of them): the stage of C16, here for "fed back to the crew, each processed exactly once"
+        import system_checks
+        files = [os.path.join(vlib.VERIF, f) for f in system_checks.MCREW_DRIVER]
+        mbin = vlib.build_overlay_test(wd, "cmd/mcrew", files)
+        si = system_checks.mcrew_stage(pid, tier, seed, wd, rep, mbin)
+        t["lines"] += si["lines"]
+        t["distinct"] += si["distinct"]
+        t["generated"] += si["generated"]
+        extra_stats.update(si["stats"])
     sysinfo = None
     if pid == "C15" and not replay:
         # the whole system as one state machine (captain, timers machine, store, firings, crash/restart)
